@@ -79,7 +79,7 @@ def run_stream(ctx, cases, dialect_name=None):
                 out, r, viter = corelib.real_pack(ty, value, reg, entry)
             else:
                 out, r, viter = real_pack_dialect(ty, value, reg, dialect)
-            oracle = S.build_oracle(ty, [viter], reg, "pack")
+            oracle = S.build_oracle(ty, [viter], reg, "pack", getattr(reg, "objmap", None))
             mty = ty
             if dialect_name == "TOMLDialect":
                 mty = with_cfg(ty, {"omit_none": True})
